@@ -31,7 +31,7 @@ def run(ctx):
     ctx.model_check("SectionAlgo", cfg, label="CopyKeepsNames on all reachable sections", workers=8, timeout=1200)
     path = section.paths(edges)
     states = sorted(path, key=lambda s: (len(path[s]), repr(s)))
-    limit = None if thorough else 260
+    limit = 3000 if thorough else 260
     if limit and len(states) > limit:
         pick = rng.sample(states, limit)
         # always keep the states with stale suffixes (a unique useful name carrying a suffix): the copy-by-append class
